@@ -354,7 +354,6 @@ func DumpCDB(path string) (Dump, error) {
 	if err != nil {
 		return nil, err
 	}
-	n := 0
 	for _, k := range keys {
 		ctx := gocdb.NewContext()
 		c.FindStart(ctx)
@@ -367,7 +366,6 @@ func DumpCDB(path string) (Dump, error) {
 				return nil, err
 			}
 			d[k] = append(d[k], cp(v))
-			n++
 		}
 	}
 	return d, nil
